@@ -31,7 +31,7 @@ W = {
     'grading': 0.25
 }
 TIERS = {
-    'quick': {'runs': 2500, 'budget_s': 150, 'leaf_cap': 250, 'max_ops': 120,
+    'quick': {'runs': 8000, 'budget_s': 150, 'leaf_cap': 250, 'max_ops': 120,
               'weights': W},
     'thorough': {'runs': 120000, 'budget_s': 1500, 'leaf_cap': 500,
                  'max_ops': 200, 'weights': W},
